@@ -12,6 +12,9 @@ RULES = {
                  'element(s) as the add update on the incoming element(s)',
     'ACC.order': 'the window statistic reads each accumulator after its add update and before '
                  'its remove update',
+    'ACC.exit': 'a kernel closure has a single exit after its remove half: an early `return` / `?` '
+                'would skip the removal (or the addition) of an element the driver has already '
+                'moved past',
     'ACC.nocapture': 'a remove/add kernel captures no data view: its only data inputs are the '
                      'driver-supplied removed and added elements',
     'GATE.form': 'effective min_periods = min_periods.unwrap_or(window/2) clamped to the window '
@@ -182,6 +185,24 @@ def check_acc(run, m):
                % (nreads, name, ad.seq, rm.seq,
                   ('; read outside (add, remove): ' + ', '.join(loc(b) for b in bad)) if bad else ''),
                trivial=(nreads == 0))
+    # every call of the kernel must run both halves: no early exit from the closure
+    if n_checked:
+        exits = []
+
+        def find_exits(e, top=True):
+            k = e.get('k')
+            if k == 'Closure' and not top:
+                return
+            if k == 'Ret' or (k == 'Match' and 'TryDesugar' in e.get('src', '')):
+                exits.append(e)
+            for c in children(e):
+                find_exits(c, False)
+        find_exits(m.body, True)
+        run.ob('ACC.exit', fn, 'no early exit between the add and remove halves', not exits,
+               _where(m, exits[0] if exits else m.cl),
+               'the closure returns early at %s: on that path the expiring element is never '
+               'removed (or the incoming one never added) while the driver still advances'
+               % ', '.join(loc(x) for x in exits) if exits else 'single exit at the end of the closure')
     # captures
     if not m.k.idx and not m.k.custom:
         param_ty = {}
@@ -437,3 +458,80 @@ def check_gate(run, m, expect_K=None):
                           '; audited: guarded by var > EPS, one observation has zero variance'
                           if audited and not ok else ''))
     return gf
+
+
+# ------------------------------------------------------------------ SIB plain <-> valid
+
+def kernel_signature(m):
+    """Normal-form summary of a remove/add kernel with null guards erased: accumulator name ->
+    (add delta, remove delta), gate (K, clamp), and the non-null result leaves as polynomials."""
+    from algebra import norm as _norm
+    m.classify()
+    accs = {}
+    for a in m.accumulators().values():
+        adds = [u for u in a['updates'] if u.block == 'add']
+        rms = [u for u in a['updates'] if u.block == 'remove']
+        accs[a['name']] = (tuple(sorted(u.poly.show() for u in adds)),
+                           tuple(sorted(u.poly.show() for u in rms)))
+    gf = gate_form(m)
+    n_id = count_acc(m)
+    leaves = []
+    if gf and n_id is not None:
+        for e, g in result_leaves(m, n_id, gf['local']):
+            if is_null_literal(e):
+                continue
+            env = _env_at(m, e)
+            leaves.append(_norm(e, env).show())
+    return {'accs': accs, 'K': gf['K'] if gf else None, 'clamp': gf['clamp'] if gf else None,
+            'leaves': sorted(leaves)}
+
+
+def _env_at(m, node):
+    """Env holding the straight-line lets (and compound assignments to closure-local
+    variables) that precede `node` in its enclosing blocks."""
+    env = Env()
+    m._name_tags(env)
+
+    def rec(e):
+        if e is node:
+            return True
+        if e.get('k') == 'Block':
+            saved_v, saved_k = dict(env.vals), set(env.killed)
+            for s in e.get('stmts', []):
+                x = s.get('init') or s.get('e')
+                if x is not None and (x is node or any(y is node for y in walk(x))):
+                    return True if x is node else rec(x)
+                read_block({'stmts': [s]}, env)
+                m._name_tags(env)
+            if 'expr' in e and (e['expr'] is node or any(y is node for y in walk(e['expr']))):
+                return True if e['expr'] is node else rec(e['expr'])
+            env.vals.clear()
+            env.vals.update(saved_v)
+            return False
+        for c in children(e):
+            if c is node or any(y is node for y in walk(c)):
+                return True if c is node else rec(c)
+        return False
+    rec(m.body)
+    return env
+
+
+def check_plain_valid(run, mp, mv):
+    """mp: model of ts_X, mv: model of ts_vX."""
+    sp, sv = kernel_signature(mp), kernel_signature(mv)
+    fn = mp.k.fn
+    key = '%s ~ %s' % (mp.k.name, mv.k.name)
+    diffs = []
+    if sp['accs'] != sv['accs']:
+        diffs.append('accumulator updates differ: %s vs %s' % (sp['accs'], sv['accs']))
+    if (sp['K'], sp['clamp']) != (sv['K'], sv['clamp']):
+        diffs.append('gate clamps differ: K=%s/%s' % (sp['K'], sv['K']))
+    if sp['leaves'] != sv['leaves']:
+        diffs.append('result closed forms differ: %s vs %s' % (sp['leaves'], sv['leaves']))
+    run.ob('SIB.plain-valid', fn, key, not diffs, fn.loc(),
+           '; '.join(diffs) if diffs else 'same accumulators, gate and closed form (%d leaf/leaves) '
+           'once the null guards are erased' % len(sp['leaves']))
+
+
+RULES['SIB.plain-valid'] = ('the plain kernel ts_X and the null-aware kernel ts_vX are the same '
+                            'state machine and closed form once the null guards are erased')
